@@ -260,7 +260,10 @@ fn oracle_pressure(case: &[u8], obs: &mut Obs) -> Result<(), String> {
     };
     for i in order {
         let got = guard(|| queries::eval_stream(&mut s, &Q::FabSecData(hdr(starts[i])))).map_err(|p| format!("{}: re-read of #{} panicked: {}", ctx, i, p))?;
-        if got != Some(truth(starts[i])) {
+        // (after a failure a later query may fail again - the statement allows that - but it may not answer wrongly)
+        let failed_again = fired && matches!(got, Some(Err(())));
+        obs.label_if(failed_again, "stream_keeps_failing_after_the_fault");
+        if got != Some(truth(starts[i])) && !failed_again {
             return Err(format!("{}: after a failed read of [{}, +{}) (schedule {:?}, fired: {}) range #{} [{}, +{}) answers {:?}; its bytes give {:?}", ctx, extra, len, sched, fired, i, starts[i], len, got, truth(starts[i])));
         }
     }
@@ -280,7 +283,7 @@ pub fn property() -> Property {
     Property {
         id: "C17",
         level: "fault_enumeration",
-        rule: "base cases are (file: a rich generated file or a linker-produced sample <= 16 KB) x (0..10 stream calls from the C07 vocabulary plus up to 3 repeats, so that a query that failed is asked again later) x (reader delivering unlimited or 24..88-byte chunks, optionally ErrorKind::Interrupted every n-th read, cursor initially at 0 or elsewhere). The base case is run fault-free to count its N I/O calls (every seek and every read); then EXHAUSTIVELY one run per call index k < N (300 sampled indices above that) for each of {error (ErrorKind::Other), premature EOF} x {transient (only call k), permanent (every call from k on)} and one transient error of another io::ErrorKind (Unsupported, WouldBlock, UnexpectedEof, TimedOut, PermissionDenied, InvalidData, BrokenPipe; rotating with k), plus 3 runs on a stream on which every SeekFrom::End fails (Other, Unsupported, one more kind), plus 6 random multi-fault schedules with legal short reads mixed in. Oracle: the call (open or query) during which an error/EOF fault fired returns Err (no panic, no Ok); every other call returns Err or exactly the content digest it returns on the fault-free stream; open never fails unless a fault fired during it. Non-trivial: a fault fired inside a query (not only in open) and a later query succeeded; distinct by (file, ops, reader) hash. One base file in 32 has a section of 64..104 KiB that is queried first and last; the fault-free answers on a reader with short reads / interruptions must equal those on a reader that fills every request. Subcheck cache_pressure: 8..97 distinct byte ranges of one length (1..100 bytes) read through one handle and checked against the file's bytes, then one more range of that length requested while the reader fails (error, premature EOF, or a short read followed by either), then every earlier range asked again oldest-first, newest-first or in random order: each answer equals the file's bytes; non-trivial when the fault fired and at least 33 ranges were cached.",
+        rule: "base cases are (file: a rich generated file or a linker-produced sample <= 16 KB) x (0..10 stream calls from the C07 vocabulary plus up to 3 repeats, so that a query that failed is asked again later) x (reader delivering unlimited or 24..88-byte chunks, optionally ErrorKind::Interrupted every n-th read, cursor initially at 0 or elsewhere). The base case is run fault-free to count its N I/O calls (every seek and every read); then EXHAUSTIVELY one run per call index k < N (300 sampled indices above that) for each of {error (ErrorKind::Other), premature EOF} x {transient (only call k), permanent (every call from k on)} and one transient error of another io::ErrorKind (Unsupported, WouldBlock, UnexpectedEof, TimedOut, PermissionDenied, InvalidData, BrokenPipe; rotating with k), plus 3 runs on a stream on which every SeekFrom::End fails (Other, Unsupported, one more kind), plus 6 random multi-fault schedules with legal short reads mixed in. Oracle: the call (open or query) during which an error/EOF fault fired returns Err (no panic, no Ok); every other call returns Err or exactly the content digest it returns on the fault-free stream; open never fails unless a fault fired during it. Non-trivial: a fault fired inside a query (not only in open) and a later query succeeded; distinct by (file, ops, reader) hash. One base file in 32 has a section of 64..104 KiB that is queried first and last; the fault-free answers on a reader with short reads / interruptions must equal those on a reader that fills every request. Subcheck cache_pressure: 8..97 distinct byte ranges of one length (1..100 bytes) read through one handle and checked against the file's bytes, then one more range of that length requested while the reader fails (error, premature EOF, or a short read followed by either), then every earlier range asked again oldest-first, newest-first or in random order: each answer is an error (only if the fault fired) or equals the file's bytes; non-trivial when the fault fired and at least 33 ranges were cached.",
         assumptions: &["a call that has not returned after 60 s on a file of at most 16 KB (a fault-free case takes milliseconds) has not returned an error: reported as a violation by the watchdog", "ErrorKind::Interrupted is not a failure (read_exact retries it) and does not consume an I/O call index", "a short read is legal reader behaviour, not a failure"],
         subs: vec![Sub::new("faults", oracle, 1800, 60_000, 2_000_000).shrink(300).hang_violation().hang_secs(60), Sub::new("cache_pressure", oracle_pressure, 1500, 150_000, 5_000_000).shrink(400).hang_violation().hang_secs(60)],
         extras: vec![crate::fuzz::c17_choice],
